@@ -197,4 +197,47 @@ theorem inv_reach (n nk : Nat) (s : State) (h : ReachNoDelete (init true n nk) s
   | init => exact inv_init n nk
   | next _ hstep hsafe ih => exact inv_step _ _ _ ih hstep hsafe
 
+/-- a label that is certainly not a `Delete`/`Clear` section -/
+def notDeleteSection (s : State) : L → Bool
+  | .tau t _ => match s.pcs t with
+    | .delCalled _ | .clrCalled => false
+    | _ => true
+  | _ => true
+
+theorem not_unsafe_of_notDeleteSection {s : State} {a : L} (h : notDeleteSection s a = true) :
+    ¬ unsafeDelete s a := by
+  cases a <;> simp [unsafeDelete]
+  rename_i t alt
+  simp only [notDeleteSection] at h
+  split <;> simp_all
+
+/-- run a label list under a policy, refusing delete sections -/
+def runUnder (policy : State → L → Bool) (s : State) : List L → Option State
+  | [] => some s
+  | a :: as =>
+    if policy s a && notDeleteSection s a then
+      match step s a with
+      | some s' => runUnder policy s' as
+      | none => none
+    else none
+
+theorem ReachNoDeleteUnder.of_runUnder {policy : State → L → Bool} {s0 s s' : State}
+    (h : ReachNoDeleteUnder policy s0 s) : ∀ {as : List L}, runUnder policy s as = some s' →
+    ReachNoDeleteUnder policy s0 s' := by
+  intro as
+  induction as generalizing s with
+  | nil => intro e; simp [runUnder] at e; exact e ▸ h
+  | cons a as ih =>
+    intro e
+    simp only [runUnder] at e
+    split at e
+    · rename_i hp
+      simp at hp
+      cases hs : step s a with
+      | none => simp [hs] at e
+      | some s1 =>
+        rw [hs] at e
+        exact ih (ReachNoDeleteUnder.next h hp.1 hs (not_unsafe_of_notDeleteSection hp.2)) e
+    · simp at e
+
 end Kit.Locks.CMap
